@@ -150,6 +150,13 @@ def run_case(case, ctx):
             if [l for l in b if l.strip()] == [l.rstrip() for l in a] or len(b) > len(a):
                 w["mechanism"] = "C18/source-tag-read-back-with-padding-and-newline"
             viol.append(violation("second_cycle_not_identical", f"{case['src']}: second write differs from the first ({len(a)} vs {len(b)} lines)", **w))
+        # the usual cycle goes back to the SAME path: writing onto an existing file replaces it
+        first = f1.read_bytes()
+        net2.write(str(f1), "naunet")
+        obs["rewrites_onto_existing_file"] += 1
+        if f1.read_bytes() != first:
+            viol.append(violation("rewrite_onto_existing_file_differs", f"{case['src']}: writing the read-back network onto the existing file gives "
+                                  f"{len(f1.read_text().splitlines())} lines, a fresh file {len(first.decode().splitlines())}"))
         Species.reset()
         net3 = Network(filelist=str(f2), fileformats="naunet")
         # ---- a network read from the exchange format, then edited through the API, must be written as edited
@@ -188,6 +195,15 @@ def run_case(case, ctx):
             net.to_code(method="dense", path=str(direct))
             net.export("exported", solver="cvode", method="dense", device="cpu", prefix=str(work), overwrite=True)
             exp_dir = work / "exported"
+            # exporting again into the same project (overwrite=True) must leave the same network file, not a longer one
+            nf = sorted(exp_dir.glob("*.naunet"))
+            before = {f.name: f.read_bytes() for f in nf}
+            net.export("exported", solver="cvode", method="dense", device="cpu", prefix=str(work), overwrite=True)
+            obs["second_exports_checked"] += 1
+            after = {f.name: f.read_bytes() for f in sorted(exp_dir.glob("*.naunet"))}
+            if after != before:
+                viol.append(violation("second_export_differs", f"{case['src']}: exporting twice into one project changes its network file(s): "
+                                      f"{[(k, len(before.get(k, b'').splitlines()), len(v.splitlines())) for k, v in after.items() if before.get(k) != v][:3]}"))
         except Exception as e:
             refused = True
             obs["export_or_rerender_refused"] += 1
